@@ -79,7 +79,7 @@ def _run_task(task):
         # the library's diagnostic logging must not alter behaviour: where the harness asks for it, the
         # log level (DEBUG on / off for every fast_ticc logger) is one more symbolic input of the path
         if getattr(_CHECK, 'fork_logging', False):
-            dbg = bool(int(c.int('debug_logging', 0, 1)))
+            dbg = bool(c.bool('debug_logging'))      # a Bool, not an Int: keeps nonlinear paths in pure real arithmetic
             c.notes['debug_logging'] = dbg
             set_library_logging(dbg)
         else:
@@ -370,11 +370,22 @@ def _main2(a, pid, chk, mutations, seed, t0):
     violations, known_hits, mismatches = [], {}, []
     seen = {}
     os.makedirs(os.path.join(VERIF, 'replays', pid), exist_ok=True)
+    # per (obligation, failed parts): replay the first two counterexamples and, while fewer than two
+    # have reproduced, up to six more spread evenly over the rest (different sizes / schedules / forms)
+    groups = {}
     for c in cex:
-        key = (c['obligation'], tuple(c.get('failed_parts') or []))
-        if seen.get(key, 0) >= 2:
+        groups.setdefault((c['obligation'], tuple(c.get('failed_parts') or [])), []).append(c)
+    chosen = []
+    for key, grp in groups.items():
+        idx = list(range(min(2, len(grp))))
+        if len(grp) > 2:
+            step = max(1, (len(grp) - 2) // 6)
+            idx += list(range(2, len(grp), step))[:6]
+        chosen += [(key, grp[i], j >= 2) for j, i in enumerate(idx)]
+    confirmed_per_key = {}
+    for (key, c, extra) in chosen:
+        if extra and confirmed_per_key.get(key, 0) >= 2:
             continue
-        seen[key] = seen.get(key, 0) + 1
         c = dict(c)
         c['property'] = pid
         c['mode'] = 'replay'
@@ -388,6 +399,7 @@ def _main2(a, pid, chk, mutations, seed, t0):
         c['replay'] = r
         c['replay_path'] = path
         if r.get('reproduced'):
+            confirmed_per_key[key] = confirmed_per_key.get(key, 0) + 1
             sig = r.get('signature')
             hit = None
             for k in kf:
